@@ -1,5 +1,6 @@
 /* E2: header-level exploration through the real reader.  Spaces: paths (C11), integrity (C12), chains/sweeps (C05) */
 #include "arc_common.h"
+#include "lha_basic_reader.h"
 
 static uint8_t ABUF[4 << 20];
 
@@ -321,6 +322,17 @@ static void perturbed_case(const uint8_t *hp, size_t hlen, size_t seed_hdr_len, 
 		}
 		if ((v == REF_INT_FAIL || (v == REF_INT_OK && !wf)) && h == NULL) {
 			for (k = 0; k < 3; ++k) if (lha_reader_next_file(rd) != NULL) vf_viol("c12-resumed", "iteration resumed after a rejected header (%s)", why);
+		}
+		if ((v == REF_INT_FAIL || (v == REF_INT_OK && !wf)) && h == NULL) {
+			/* the same through the layer underneath (lib/lha_basic_reader.h), which the reader and the tool sit on */
+			mem_stream ms2;
+			LHAInputStream *st2 = mem_open(&ms2, arc, total, 1);
+			LHABasicReader *br = lha_basic_reader_new(st2);
+			int guard = 0;
+			while (lha_basic_reader_next_file(br) != NULL && ++guard < 8);
+			for (k = 0; k < 3; ++k) if (lha_basic_reader_next_file(br) != NULL) { vf_viol("c12-basic-resumed", "the basic reader hands out another entry after its iteration ended at a rejected header (%s)", why); break; }
+			lha_basic_reader_free(br);
+			lha_input_stream_free(st2);
 		}
 		if (v == REF_INT_OK && !wf && h != NULL)
 			vf_viol("c12-nameless", "an entry without the required name/path was returned");
